@@ -344,7 +344,7 @@ func sanitize(s string) string {
 		case c == '[':
 			b.WriteString("_of_")
 		case c == ']', c == ' ':
-		case c == '/':
+		case c == '/', c == ':':
 			b.WriteRune('.')
 		default:
 			b.WriteRune('_')
